@@ -151,3 +151,30 @@ def gas_values_form(vals, k):
             d["note " + q] = 0.5
         return d, "dict, shuffled key order with unrelated entries in between"
     return {q: vals[q] for q in sorted(keys)}, "dict, keys inserted alphabetically"
+
+
+# other spellings of the two documented fluid types (capitalised, padded): the unchanged library rejects them with ValueError; a
+# library that accepts one must then compute for the fluid type the spelling NAMES - silently treating "Dry Gas" as wet gas is wrong
+DRYNESS_SPELLINGS = [("Dry Gas", "dry gas"), ("DRY GAS", "dry gas"), ("Dry gas", "dry gas"), ("dry gas ", "dry gas"), (" dry gas", "dry gas"), ("dry gas\n", "dry gas"),
+                     ("Wet Gas", "wet gas"), ("wet gas ", "wet gas"), ("dry  gas", "dry gas")]
+
+
+def check_dryness_spellings(f, report, close):
+    """f(fluid_name) -> comparable value (raises ValueError for names it rejects).  For every other spelling of a documented name:
+    either ValueError, or the value of the documented name it spells.  Returns #evaluations."""
+    ref = {nm: f(nm) for nm in ("dry gas", "wet gas")}
+    n = 0
+    for spelled, means in DRYNESS_SPELLINGS:
+        n += 1
+        try:
+            got = f(spelled)
+        except ValueError:
+            continue
+        except Exception as e:  # noqa: BLE001
+            report(f"fluid type {spelled!r} raises {type(e).__name__} (neither rejected with ValueError nor accepted)", spelled, repr(e)[:160])
+            continue
+        if not close(got, ref[means]):
+            other = "wet gas" if means == "dry gas" else "dry gas"
+            report(f"fluid type {spelled!r} is accepted but evaluated as another fluid type than the one it names" + (f" (the result is the {other} one)" if close(got, ref[other]) else ""), spelled,
+                   dict(got=got, expected_for=means, expected=ref[means]))
+    return n
